@@ -25,7 +25,7 @@ import os
 from typing import Any, Dict, List, Optional, Tuple
 
 from .. import common, explore, kgen, server
-from ..kgen import And, Cfg, Choice, Comment, If, L, Menu, Not, Program, S
+from ..kgen import Cfg, Choice, Comment, If, L, Menu, Not, Program, S
 
 ID = "C14"
 LEVEL = "model_checking"
@@ -425,7 +425,7 @@ def jeq(a: Any, b: Any) -> bool:
 _MISSING = object()
 
 
-def compare(kind: str, left: Dict[str, dict], right: Dict[str, dict], ev: int, left_is_client: bool) -> Dict[tuple, str]:
+def compare(kind: str, left: Dict[str, dict], right: Dict[str, dict], ev: int) -> Dict[tuple, str]:
     """Returns {(kind, channel, key, how): text}.  right is a complete state (L or M)."""
     out: Dict[tuple, str] = {}
     rvis = right["visible"]
@@ -622,7 +622,7 @@ class Explorer:
                 if got[0] != "ok":
                     out[("restart", "-", "-", "fresh_server_failed")] = f"fresh server on the saved file: {got[1:]!r}"[:300]
                 else:
-                    out.update(compare("restart_differs", live, got[1], 3, False))
+                    out.update(compare("restart_differs", live, got[1], 3))
         return out
 
     def mismatches(self, h: tuple, st: Optional[State] = None) -> Dict[tuple, str]:
@@ -633,7 +633,7 @@ class Explorer:
             st = self.build(h)
         out: Dict[tuple, str] = {}
         live = server.full_state(st.run.kconfig)
-        out.update(compare("client_out_of_sync", st.client, live, self.ev, True))
+        out.update(compare("client_out_of_sync", st.client, live, self.ev))
         skey = (self.tkey, common.h64(self.server_key(st)))
         restart = _RESTART.get(skey)
         if restart is None:
